@@ -5,27 +5,31 @@
 (* A deque is [blocks, nfree]: the blocks' contents and the number of spare blocks.                   *)
 EXTENDS Containers
 
-CONSTANT BlockSize
-NewDeq == [blocks |-> <<>>, nfree |-> 0]
+CONSTANT BlockSize,
+         SwapExchangesBlockSize      \* TRUE: swap() exchanges m_blockSize too (repair); FALSE: the code before it (m_blockSize was const)
+NewDeqBs(b) == [blocks |-> <<>>, nfree |-> 0, bs |-> b]          \* bs: m_blockSize of THIS deque (every index computation uses it)
+NewDeq == NewDeqBs(BlockSize)
 
-Size(D) == IF D.blocks = <<>> THEN 0 ELSE (Len(D.blocks) - 1) * BlockSize + Len(D.blocks[Len(D.blocks)])
+Size(D) == IF D.blocks = <<>> THEN 0 ELSE (Len(D.blocks) - 1) * D.bs + Len(D.blocks[Len(D.blocks)])
 Empty(D) == D.blocks = <<>>                                                      \* m_blockIndex.empty()
-Index(D, i) == D.blocks[(i \div BlockSize) + 1][(i % BlockSize) + 1]           \* operator[]
+(* operator[]: block index / offset computed with this deque's m_blockSize; 0 (no element) if that misses the blocks *)
+Index(D, i) == LET b == (i \div D.bs) + 1  o == (i % D.bs) + 1 IN
+               IF b <= Len(D.blocks) /\ o <= Len(D.blocks[b]) THEN D.blocks[b][o] ELSE 0
 Items(D) == [i \in 1..Size(D) |-> Index(D, i - 1)]
 
 PushBack(D, x) ==
-  LET needNew == D.blocks = <<>> \/ Len(D.blocks[Len(D.blocks)]) >= BlockSize
+  LET needNew == D.blocks = <<>> \/ Len(D.blocks[Len(D.blocks)]) >= D.bs
       D1 == IF needNew                                                            \* pushNewIndexBlock(): recycle or allocate
-            THEN [blocks |-> Append(D.blocks, <<>>), nfree |-> IF D.nfree > 0 THEN D.nfree - 1 ELSE 0]
+            THEN [D EXCEPT !.blocks = Append(D.blocks, <<>>), !.nfree = IF D.nfree > 0 THEN D.nfree - 1 ELSE 0]
             ELSE D
   IN [D1 EXCEPT !.blocks[Len(D1.blocks)] = Append(@, x)]
 
 PopBack(D) ==
   LET b == Len(D.blocks)
       D1 == [D EXCEPT !.blocks[b] = Front(@)]
-  IN IF D1.blocks[b] = <<>> THEN [blocks |-> Front(D1.blocks), nfree |-> D1.nfree + 1] ELSE D1
+  IN IF D1.blocks[b] = <<>> THEN [D1 EXCEPT !.blocks = Front(D1.blocks), !.nfree = D1.nfree + 1] ELSE D1
 
-Clear(D) == [blocks |-> <<>>, nfree |-> D.nfree + Len(D.blocks)]
+Clear(D) == [D EXCEPT !.blocks = <<>>, !.nfree = D.nfree + Len(D.blocks)]
 
 (* resize(newSize): the distance is fixed before the loops (repair 29ce248; the bounds used to contain size()) *)
 RECURSIVE GrowLoop(_, _, _)
@@ -43,14 +47,18 @@ ImplApply(D, op) ==
     [] op.op = "popBack"    -> DR(PopBack(D), 0, <<>>)
     [] op.op = "resize"     -> DR(Resize(D, op.n), 0, <<>>)
     [] op.op = "clear"      -> DR(Clear(D), 0, <<>>)
-    [] op.op = "swap"       -> DR(PushAll(NewDeq, op.src), 0, Items(D))            \* a temporary with the same block size
+    [] op.op = "swap"       ->             \* with a temporary of the same block size, or (op.wide) of a larger one
+         LET T == PushAll(NewDeqBs(IF "wide" \in DOMAIN op /\ op.wide THEN BlockSize + 1 ELSE BlockSize), op.src)
+             mine == [blocks |-> T.blocks, nfree |-> T.nfree, bs |-> IF SwapExchangesBlockSize THEN T.bs ELSE D.bs]
+             its  == [blocks |-> D.blocks, nfree |-> D.nfree, bs |-> IF SwapExchangesBlockSize THEN D.bs ELSE T.bs] IN
+         DR(mine, 0, Items(its))
     [] op.op = "assign"     -> DR(PushAll(Clear(D), op.src), 0, <<>>)             \* operator=: clear(), copy through back_inserter
     [] op.op = "selfAssign" -> DR(D, 0, <<>>)
     [] op.op = "copy"       -> DR(D, 0, Items(PushAll(NewDeq, Items(D))))
 
 WellFormed(D) ==
-  /\ \A b \in 1..Len(D.blocks) : Len(D.blocks[b]) >= 1 /\ Len(D.blocks[b]) <= BlockSize
-  /\ \A b \in 1..(Len(D.blocks) - 1) : Len(D.blocks[b]) = BlockSize
+  /\ \A b \in 1..Len(D.blocks) : Len(D.blocks[b]) >= 1 /\ Len(D.blocks[b]) <= D.bs
+  /\ \A b \in 1..(Len(D.blocks) - 1) : Len(D.blocks[b]) = D.bs
 
 (* ---- repaired path (known_findings key deque-resize-half, now "fixed"): resize over a distance of more than *)
 (* one element used to stop half way; the predicate only marks these transitions for replay on the real class   *)
